@@ -104,6 +104,9 @@ def gen_sender(rng, tier, force_w=None, rep=None):
     return "snd %d %d %d %d %d %s %s" % (b, w, tmo, rp, chk, f, " ".join(evs))
 
 
+PATTERNS = ["ff", "0d0a", "0d00", "0a", "1a", "00", "0003000100040001", "0005000446696c65", "00060000", "e28099", "ffd8ffe0", "2e2e2f", "7f454c46"]
+
+
 def directed_sender():
     """boundary cases that must always run (the design-review reproductions among them)"""
     L = []
@@ -132,6 +135,11 @@ def directed_sender():
         acks = " ".join("A%d@0" % k for k in range(w, n + 2, w)) + " A%d@0" % (n + 1)
         L.append("snd %d %d 5000 1 0 zero:%d %s" % (b, w, n * b, acks))
         L.append("snd %d %d 5000 1 0 zero:%d %s" % (b, w, n * b + 100, acks))
+    # content that looks like something else: runs of one byte value, line ends (netascii is not implemented: octet only), bytes that read
+    # as TFTP headers at the start of every block, text - the data is opaque
+    for pat in PATTERNS:
+        L.append("snd 8 2 5000 1 0 pat:%s:44 A2@0 A4@0 A6@0" % pat)
+        L.append("snd 512 1 5000 1 0 pat:%s:1100 A1@0 A2@0 A3@0" % pat)
     # a peer ERROR ends the transfer whatever its code
     for code in range(8):
         L.append("snd 8 2 5000 1 0 gen:40:9 A2@0 E%d@0 T T T A4@0" % code)
@@ -218,6 +226,9 @@ def directed_receiver():
             L.append("rcv %d %d 1 1 full D1:zero:%d D2:gen:%d:2 D3:zero:%d D4:-" % (b, w, b, b, b))
             L.append("rcv %d %d 1 1 full D1:zero:%d D2:zero:%d D3:zero:%d D4:zero:%d D5:zero:%d" % (b, w, b, b, b, b, b - 1))
             L.append("rcv %d %d 1 0 full D1:zero:%d D2:zero:%d D2:zero:%d E" % (b, w, b, b, b))
+    for pat in PATTERNS:
+        L.append("rcv 8 2 1 1 full D1:pat:%s:8 D2:pat:%s:8 D3:pat:%s:8 D4:pat:%s:5" % (pat, pat, pat, pat))
+        L.append("rcv 512 1 1 1 full D1:pat:%s:512 D2:pat:%s:512 D3:pat:%s:76" % (pat, pat, pat))
     return [" ".join(l.split()) for l in L]
 
 
@@ -1192,6 +1203,26 @@ class C13(WorkerProp):
                 L.append("rcv 8 %d 1 %d nospace D1:0102030405060708 D1:0102030405060708 D3:01 T D2:01" % (w, clean))
                 L.append("rcv 8 %d 1 %d nospace E" % (w, clean))
                 L.append("rcv 512 %d 1 %d nospace D1:gen:512:1 D2:gen:512:2 D3:gen:100:3" % (w, clean))
+        # write errors in the middle of an upload: the process may not grow a file beyond q bytes while the worker runs (RLIMIT_FSIZE): the
+        # write that crosses the limit is cut, the next one fails
+        for b, w, q, lens in [(512, 1, 1300, [512, 512, 512, 100]), (512, 2, 1300, [512, 512, 512, 100]), (512, 3, 1024, [512, 512, 100]),
+                              (512, 3, 1124, [512, 512, 100]), (512, 1, 4096, [512, 100]), (1024, 2, 2048, [1024, 1024, 1024, 1024, 5]),
+                              (512, 4, 1536, [512, 512, 512, 512, 512, 1]), (4096, 1, 5000, [4096, 4096, 10]), (512, 1, 1024, [512, 512, 0])]:
+            for clean in (0, 1):
+                evs = " ".join("D%d:gen:%d:%d" % (k + 1, l, k + 1) if l else "D%d:-" % (k + 1) for k, l in enumerate(lens))
+                L.append("rcv %d %d 1 %d quota:%d %s" % (b, w, clean, q, evs))
+        for _ in range(40 if tier == "quick" else 600):
+            b = rng.choice([512, 512, 1024, 1428])
+            w = rng.choice([1, 1, 2, 3, 4])
+            nb = rng.randint(1, 8)
+            lens = [b] * nb + [rng.choice([0, 1, b - 1])]
+            q = max(1024, rng.choice([sum(lens), sum(lens) - 1, sum(lens) + 1, rng.randint(1024, max(1025, sum(lens))), (nb // 2) * b, (nb // 2) * b + 7]))
+            evs = []
+            for k, l in enumerate(lens):
+                evs.append("D%d:gen:%d:%d" % (k + 1, l, k + 1) if l else "D%d:-" % (k + 1))
+                if rng.random() < 0.15:
+                    evs.append(rng.choice(["T", "D%d:gen:%d:%d" % (max(1, k), b, max(1, k))]))
+            L.append("rcv %d %d 1 %d quota:%d %s" % (b, w, rng.choice([0, 1]), q, " ".join(evs)))
         # through the server: --keep-on-error must reach the worker, in both port modes, with and without options
         from .p_server import rq
         root = (self.sandbox + "/k0").encode().hex()
@@ -1235,7 +1266,48 @@ class C13(WorkerProp):
             return None
         if line.startswith("rcv ") and line.split(" ")[5] == "nospace":
             return self.nospace_oracle(line, impl)
+        if line.startswith("rcv ") and line.split(" ")[5].startswith("quota:"):
+            return self.quota_oracle(line, impl)
         return WorkerProp.oracle(self, line, impl)
+
+    def quota_oracle(self, line, impl):
+        """the target takes q bytes: every ACK is emitted over a file that holds all blocks received in sequence (so no block beyond the
+        room is ever acknowledged), an upload larger than the room fails, a failed upload is removed (clean) or what is kept is a prefix
+        of the bytes received, not longer than the room; an upload that fits succeeds with exactly its bytes"""
+        if impl in ("panic", "abort", "bad-op") or " => " not in impl or "panic" in impl:
+            return ("worker panics or no observation: " + impl[:60], "panic")
+        v = receiver_oracle(line, impl, ("fidelity",))
+        if v:
+            return v
+        q = int(line.split(" ")[5].split(":")[1])
+        st, fin = impl.rsplit(" => ", 1)[1].split(" file=")
+        c = RCase(line)
+        k, data, final = 0, b"", False
+        for kind, n, payload in c.events:
+            if final:
+                break
+            if kind == "error":
+                break
+            if kind == "data" and n == (k + 1) % 65536:
+                k += 1
+                data += payload
+                final = len(payload) < c.b
+        if st == "ok":
+            if len(data) > q:
+                return ("upload of %d bytes reported complete although the target takes only %d" % (len(data), q), "write-error-swallowed")
+            if fin != "%d:%d" % (len(data), fnv(data)):
+                return ("completed upload does not hold exactly the bytes received", "final-file")
+        if st == "failed":
+            if c.clean and fin != "none":
+                return ("upload failed (write error after %d bytes of room) and its partial file is left behind although clean-on-error is in force" % q,
+                        "write-error-not-cleaned")
+            if not c.clean:
+                if fin == "none":
+                    return ("upload failed with a write error and its file was removed although keep-on-error", "write-error-removed")
+                ln = int(fin.split(":")[0])
+                if ln > q or ln > len(data) or fin != "%d:%d" % (ln, fnv(data[:ln])):
+                    return ("kept partial file is not a prefix (within the room) of the bytes received", "not-prefix")
+        return None
 
     def nospace_oracle(self, line, impl):
         """the target cannot take a single byte: an upload that carries data fails with a write error, and a failed upload is removed
